@@ -32,6 +32,7 @@ type Scenario struct {
 	Preload     int      `json:"preload,omitempty"` // writes before the scenario (old events, see watch)
 	EmptyStart  bool     `json:"empty,omitempty"`   // do not seed the counter document (oplog starts empty)
 	Watch       bool     `json:"watch,omitempty"`   // record oplog snapshots for the C09 monitors
+	Queue       int      `json:"queue,omitempty"`   // preload db.q with this many ready jobs (read-modify-write scenarios)
 	FileStore   bool     `json:"file,omitempty"`    // a real lungo.FileStore (temp file) under the fault wrapper
 	Free        bool     `json:"free,omitempty"`    // free-running stress
 	FreeFor     int      `json:"freeMs,omitempty"`  //
@@ -59,7 +60,9 @@ type Outcome struct {
 	Oplog0     []*Ev    // oplog before the scenario started (seed and preloaded old events)
 	Oplog      []*Ev    // final oplog (before the teardown probe)
 	Final      []string // final contents of db.c (sorted by _id)
+	FinalQ     []string // final contents of db.q
 	ClosedBy   bool     // the scenario itself closed the engine
+	TornDown   bool     // the controller ended client-held transactions to let token waiters finish (stands for the token timeout)
 	ProbeCls   string   // result class of the teardown probe write ("" = not run)
 	N          int      // number of client actors
 	WallMS     float64
@@ -107,10 +110,17 @@ func Run(sc Scenario, ch Chooser) *Outcome {
 		return out
 	}
 	out.W = w
+	if sc.Queue > 0 {
+		// the job queue of the read-modify-write scenarios
+		w.Queue = sc.Queue
+		for i := 1; i <= sc.Queue; i++ {
+			_, _ = w.Client.Database(DB).Collection(QueueColl).InsertOne(nil, bson.D{{Key: "_id", Value: fmt.Sprintf("j%d", i)}, {Key: "state", Value: "ready"}, {Key: "prio", Value: int64(i)}})
+		}
+	}
 	out.Oplog0 = ReadOplog(w.Engine)
 	w.Old = out.Oplog0
 	c := NewController(w, sc.Actors, ch)
-	c.AllowCancel, c.AllowStore, c.PeekOplog = sc.AllowCancel, sc.AllowStore, sc.Watch
+	c.AllowCancel, c.AllowStore, c.PeekOplog = sc.AllowCancel, sc.AllowStore, sc.Watch || sc.Queue > 0
 	setHooks(c.onHook)
 	c.Run()
 	setHooks(nil)
@@ -122,6 +132,9 @@ func Run(sc Scenario, ch Chooser) *Outcome {
 			if ci, ok := r.Call.(CallInfo); ok && ci.Call == "close" {
 				out.ClosedBy = true
 			}
+		}
+		if r.Kind == "teardown" {
+			out.TornDown = true
 		}
 	}
 	traceMonitors(out)
@@ -154,6 +167,7 @@ func Run(sc Scenario, ch Chooser) *Outcome {
 	monitorsC16(out, c, w, base)
 	out.Viols = append(out.Viols, CheckHistory(out)...)
 	out.Viols = append(out.Viols, CheckPersistence(out)...)
+	out.Viols = append(out.Viols, CheckRMW(out)...)
 	out.WallMS = float64(time.Since(t0).Microseconds()) / 1000
 	return out
 }
@@ -184,6 +198,8 @@ func traceMonitors(out *Outcome) {
 				if ci.Call == "close" {
 					holder = 0
 				}
+			case "teardown":
+				holder = 0 // the controller ended the open client transactions
 			case "ret":
 				ci := cur[r.Actor]
 				if r.Final && r.Res != nil && r.Res.Cls == "ok" && (ci.Op == "sstart" || (ci.Op == "ebegin" && ci.Lock)) {
@@ -289,6 +305,11 @@ func monitorsC16(out *Outcome, c *Controller, w *World, base int) {
 			if r.Obs.HasTx && r.Obs.Token != 0 {
 				out.viol("C16", "two-writers", "a write transaction exists while the token is available", fmt.Sprintf("seq %d", r.Seq))
 			}
+		case r.Kind == "teardown":
+			// the controller's own Abort released the token (its hook events are not recorded)
+			if strings.Contains(r.Site, "aborted=true") && held > 0 {
+				held--
+			}
 		case r.Kind == "event" && r.Point == "sem.acquired" && len(r.Args) == 1 && r.Args[0] == true:
 			held++
 			if held > 1 {
@@ -338,6 +359,7 @@ func monitorsC16(out *Outcome, c *Controller, w *World, base int) {
 	}
 	// final oplog and contents
 	out.Oplog, out.Final = ReadOplog(w.Engine), Contents(w.Engine, lungo.Handle{DB, Coll})
+	out.FinalQ = Contents(w.Engine, lungo.Handle{DB, QueueColl})
 	// (4) probe write
 	if o.Alive {
 		ctx, cancel := context.WithTimeout(context.Background(), time.Second)
